@@ -4,7 +4,9 @@
 
 pub mod transport;
 pub mod world;
+pub mod faults;
 pub mod runs;
+pub mod splits;
 
 use crate::kit::canon::{self, Row};
 use crate::kit::report::Violation;
@@ -76,4 +78,21 @@ impl Outcome {
 
 pub fn violation(clause: &str, symptom: &str, features: Vec<String>, detail: String, context: serde_json::Value) -> Violation {
     Violation { clause: clause.into(), symptom: symptom.into(), features, detail, overrides: serde_json::Value::Null, context }
+}
+
+/// Run the coordinator the way the server does: inside a task boundary that turns a
+/// panic into a failed query (`query_runtime().spawn(..)` -> `ExecError::TaskFailed`).
+pub async fn guarded<F>(f: F) -> Outcome
+where
+    F: Future<Output = Result<query_engine::distributed::DistributedResult, QueryError>>,
+{
+    use futures::FutureExt;
+    match std::panic::AssertUnwindSafe(f).catch_unwind().await {
+        Ok(Ok(d)) => outcome_of(Ok(d.result)),
+        Ok(Err(e)) => outcome_of(Err(e)),
+        Err(p) => {
+            let msg = p.downcast_ref::<String>().cloned().or_else(|| p.downcast_ref::<&str>().map(|s| s.to_string())).unwrap_or_default();
+            Outcome::Err { class: "task-panic", msg: format!("query task panicked: {msg}") }
+        }
+    }
 }
